@@ -12,7 +12,8 @@
     (id -> rid); [st_runners] is every rerunner ever created, with its status Live / Failed / Stopped. *)
 From Coq Require Import List String Bool Arith.
 From Thunder Require Import Lib.Json DiffMerge.Model Server.Model Server.Spec Server.Proofs Server.ProofsLife
-     Server.ProofsLog Server.Witness Server.Release Server.ProofsRelease Server.ProofsC17.
+     Server.ProofsLog Server.Witness Server.Release Server.ProofsRelease Server.ProofsC17
+     Server.Product Server.ProductDrive Server.ProductWitness Server.ProofsProduct.
 Import ListNotations.
 
 (** No leak, duplicate-id rule, map consistency.  In every reachable state: ids in the map are unique;
@@ -145,6 +146,73 @@ Example release_example :
   exists s rs, runR (repaired 3) (init, rinit) h_release = Some (s, rs) /\ st_closed s = true
                /\ rs_released rs = [6; 5; 3; 4; 2; 1] /\ List.length (st_out s) = 3 /\ st_sockclosed s = true.
 Proof. exact Witness.release_example. Qed.
+
+(** * After the end, in the reactive package itself (Server/Product.v)
+
+    The connection model composed with Reactive/Rerunner.v, the model of reactive/graph.go +
+    reactive/rerunner.go of C04 / C08 (see Props/C02.v, "End to end"): a connection step that ends a
+    subscription performs Rerunner.Stop on its rerunner.  [preachable w p]: [p] is reached by some
+    interleaving of client messages, asynchronous closes, socket close, data changes and the critical
+    sections of the reactive package's goroutines. *)
+
+(** None of its resolvers run again.  Once a subscription has ended (by unsubscribe, by the close its own
+    failure requested, or because the connection closed) then in every continuation: its rerunner has [stop]
+    set and holds no computation; no goroutine is anywhere in Rerunner.run between cleaning the cache and
+    arming the invalidation handler for it - [runner rid f] are exactly those frames, and the compute
+    function (Execute, hence every resolver of the query) only ever runs above the FRunEnd frame of such a
+    run; and the connection accepts no run completion for it.  (C04's [after_stop] through the coherence
+    invariant of the product.) *)
+Theorem never_computes_after_end : forall w p h p' rid,
+  preachable w p -> stopped_in (fst p) rid = true -> prun w p h = Some p' ->
+  RR.r_stop (RR.getr (snd p') rid) = true
+  /\ RR.r_comp (RR.getr (snd p') rid) = None
+  /\ (forall f, In f (RB.all_frames (snd p')) -> RM.runner rid f = false)
+  /\ (forall o, step (w_cfg w) (fst p') (LRun rid o) = None).
+Proof. exact ProofsProduct.never_computes_after_end_l. Qed.
+Print Assumptions never_computes_after_end.
+
+(** Its reactive resources are released.
+    FULL STATEMENT: ... and every resource node registered by a computation of [rid] that no other
+    computation depends on has [n_rel] set and its Cleanup ran exactly once.
+    PROVED (partial): when the system has come to rest after the end of a subscription, its rerunner holds
+    no computation (Stop handed it to release()), no goroutine is left, every resource node that took part
+    in a dependency and has no dependant left has been released with exactly one Cleanup call (C08's
+    [cleanup_exactly_once_at_quiescence]), and no Cleanup callback anywhere ran twice.  Missing: that the
+    nodes registered by [rid]'s computations have no dependant left once [rid]'s computation was released
+    (a statement about release() walking the in-edges that Reactive/ does not provide in this form); at the
+    level of the rerunner interface that part is [released_when_stopped] above. *)
+Theorem released_after_end_partial : forall w p rid,
+  preachable w p -> stopped_in (fst p) rid = true -> RR.quiescent (snd p) ->
+  RR.r_comp (RR.getr (snd p) rid) = None
+  /\ RB.all_frames (snd p) = []
+  /\ (forall n, RG.n_had (RR.getN (snd p) n) = true -> RG.n_out (RR.getN (snd p) n) = [] ->
+                RG.n_hrel (RR.getN (snd p) n) <> None ->
+                RG.n_rel (RR.getN (snd p) n) = true /\ RG.n_cln (RR.getN (snd p) n) = 1)
+  /\ (forall n, RG.n_cln (RR.getN (snd p) n) <= 1).
+Proof. exact ProofsProduct.released_after_end_l. Qed.
+Print Assumptions released_after_end_partial.
+
+(** After the connection closed every rerunner it ever created is stopped in the reactive package and holds
+    no computation. *)
+Theorem all_rerunners_stopped_after_close : forall w p rid ru,
+  c_fix_mutdup (w_cfg w) = true -> preachable w p -> st_closed (fst p) = true ->
+  st_runners (fst p) rid = Some ru ->
+  RR.r_stop (RR.getr (snd p) rid) = true /\ RR.r_comp (RR.getr (snd p) rid) = None.
+Proof. exact ProofsProduct.all_rerunners_stopped_after_close_l. Qed.
+Print Assumptions all_rerunners_stopped_after_close.
+
+(** Non-vacuity (Server/ProductWitness.v): the history of [live_convergence_example] (Props/C02.v) continued
+    by unsubscribe 5, another change of slot 0 and the socket closing, 163 labels: everything stopped and at
+    rest, rerunner 0 computed three times (none after its end although slot 0 changed), four superseded
+    slot resources had their one Cleanup call. *)
+Example after_end_example :
+  exists sv rx, prun wx (pinit wx) h_end = Some (sv, rx) /\ st_closed sv = true /\ RR.quiescent rx
+    /\ stopped_in sv 0 = true /\ stopped_in sv 1 = true /\ stopped_in sv 2 = true
+    /\ map RR.r_stop (RR.s_rrs rx) = [true; true; true] /\ map RR.r_runs (RR.s_rrs rx) = [3; 1; 2]
+    /\ map Thunder.Reactive.Graph.n_cln (RR.s_nodes rx) = [1; 1; 0; 0; 1; 0; 0; 0; 0; 1; 0; 0; 0; 0; 0]
+    /\ List.length (st_out sv) = 6
+    /\ log_of sv = [LgSub 5; LgSub 6; LgUnsub 6; LgSub 7; LgUnsub 5; LgUnsub 7].
+Proof. exact end_example. Qed.
 
 (** * The original code: each repair is needed *)
 
